@@ -112,6 +112,43 @@ fn boundary(thorough: bool, rng: &mut Rng64, out: &mut Out) {
     }
 }
 
+/// Operands with more than 65 536 nodes (pointers that need a third byte, memo keys beyond 16 bits): a dense
+/// pseudo-random function over 20 variables (~107 000 nodes) against small partners, on the safe and on the
+/// clash path, and a small f against a big g.
+fn bigs(thorough: bool, rng: &mut Rng64, out: &mut Out) {
+    let rounds = if thorough { 4 } else { 1 };
+    for k in 0..rounds {
+        let n = 20usize;
+        let size = 1usize << n;
+        let bit = |i: usize, v: usize| (i >> (n - 1 - v)) & 1 == 1;
+        let big = fmt_bdd(&bdd_of_tt(n, &(0..size).map(|_| rng.bool()).collect::<Vec<_>>()));
+        let x = [10usize, 0, 19, 7][k % 4];
+        let y = (x + 1 + rng.below(n as u64 - 1) as usize) % n;
+        let z = (x + n - 1) % n;
+        // big f, small g: safe (g = y, g = y & !z) and clash (g = x ^ y, g = !x)
+        let g_safe = fmt_bdd(&bdd_of_tt(n, &(0..size).map(|i| bit(i, y) && !(z != y && bit(i, z))).collect::<Vec<_>>()));
+        let g_clash = fmt_bdd(&bdd_of_tt(n, &(0..size).map(|i| bit(i, x) ^ bit(i, y)).collect::<Vec<_>>()));
+        run("C07.sub", &[big.clone(), g_safe, x.to_string()], out);
+        run("C07.sub", &[big.clone(), g_clash, x.to_string()], out);
+        // small f (mentions x), big g (mentions every variable: clash path)
+        let f_small = fmt_bdd(&bdd_of_tt(n, &(0..size).map(|i| bit(i, x) ^ (bit(i, y) && bit(i, z))).collect::<Vec<_>>()));
+        run("C07.sub", &[f_small.clone(), big.clone(), x.to_string()], out);
+        if thorough {
+            let g_not = fmt_bdd(&bdd_of_tt(n, &(0..size).map(|i| !bit(i, x)).collect::<Vec<_>>()));
+            run("C07.sub", &[big.clone(), g_not, x.to_string()], out);
+            // small f, big g that does not depend on x (safe path with a big operand): 21 variables
+            let n1 = 21usize;
+            let size1 = 1usize << n1;
+            let bit1 = |i: usize, v: usize| (i >> (n1 - 1 - v)) & 1 == 1;
+            let inner: Vec<bool> = (0..(size1 / 2)).map(|_| rng.bool()).collect();
+            let drop_x = |i: usize| { let hi = i >> (n1 - x); let lo = i & ((1usize << (n1 - 1 - x)) - 1); (hi << (n1 - 1 - x)) | lo };
+            let g_big_safe = fmt_bdd(&bdd_of_tt(n1, &(0..size1).map(|i| inner[drop_x(i)]).collect::<Vec<_>>()));
+            let f1 = fmt_bdd(&bdd_of_tt(n1, &(0..size1).map(|i| bit1(i, x) ^ bit1(i, y)).collect::<Vec<_>>()));
+            run("C07.sub", &[f1, g_big_safe, x.to_string()], out);
+        }
+    }
+}
+
 fn random_subset(rng: &mut Rng64, n: usize) -> Vec<usize> {
     (0..n).filter(|_| rng.bool()).collect()
 }
@@ -195,6 +232,8 @@ pub fn gen(tier: Tier, rng: &mut Rng64, out: &mut Out) {
             for g in gs { run("C07.sub", &[f.clone(), fmt_bdd(&bdd_of_tt(n, &g)), x.to_string()], out); }
         }
     }
+    // ---------------- operands with more than 65 536 nodes
+    bigs(thorough, rng, out);
     let _ = s;
 }
 
